@@ -150,3 +150,42 @@ pub const PERIOD_BITS: u32 = PeriodType::BITS;
 pub fn eps() -> f64 {
 	ValueType::EPSILON as f64
 }
+
+/// Thread-safe collector for total-enumeration blocks: keeps the least few cases per signature.
+pub struct VioSink {
+	system: String,
+	inner: std::sync::Mutex<std::collections::BTreeMap<String, (u64, Vec<(String, String)>)>>,
+}
+
+impl VioSink {
+	pub fn new(system: &str) -> Self {
+		Self { system: system.to_string(), inner: Default::default() }
+	}
+	pub fn push(&self, sig: &str, case: String, detail: String) {
+		let mut g = self.inner.lock().unwrap();
+		let e = g.entry(sig.to_string()).or_insert((0, Vec::new()));
+		e.0 += 1;
+		if e.1.len() < 3 {
+			e.1.push((case, detail));
+		}
+	}
+	pub fn total(&self) -> u64 {
+		self.inner.lock().unwrap().values().map(|v| v.0).sum()
+	}
+	pub fn into_violations(self) -> Vec<Violation> {
+		let g = self.inner.into_inner().unwrap();
+		let mut out = vec![];
+		for (sig, (n, cases)) in g {
+			for (case, detail) in cases {
+				out.push(Violation {
+					system: self.system.clone(),
+					init: "-".into(),
+					path: vec![case],
+					failure: Failure::new(sig.clone(), format!("{detail} [{n} cases with this signature]")),
+					deviations: 0,
+				});
+			}
+		}
+		out
+	}
+}
